@@ -200,6 +200,10 @@ func (c *ClusterInfo) GetLookupdProducers(lookupdHTTPAddrs []string) (Producers,
 			lock.Lock()
 			defer lock.Unlock()
 			for _, producer := range resp.Producers {
+				if producer == nil {
+					// "producers": [null]
+					continue
+				}
 				key := producer.TCPAddress()
 				p, ok := producersByAddr[key]
 				if !ok {
@@ -267,6 +271,9 @@ func (c *ClusterInfo) GetLookupdTopicProducers(topic string, lookupdHTTPAddrs []
 			lock.Lock()
 			defer lock.Unlock()
 			for _, p := range resp.Producers {
+				if p == nil {
+					continue
+				}
 				for _, pp := range producers {
 					if p.HTTPAddress() == pp.HTTPAddress() {
 						goto skip
@@ -587,6 +594,11 @@ func (c *ClusterInfo) GetNSQDStats(producers Producers,
 			lock.Lock()
 			defer lock.Unlock()
 			for _, topic := range resp.Topics {
+				if topic == nil {
+					// an upstream may answer arrays that contain null
+					continue
+				}
+				topic.Channels = nonNilChannels(topic.Channels)
 				topic.Node = addr
 				topic.Hostname = p.Hostname
 				topic.MemoryDepth = topic.Depth - topic.BackendDepth
@@ -915,4 +927,24 @@ func (c *ClusterInfo) producersPOST(pl Producers, uri string, qs string) error {
 		return ErrList(errs)
 	}
 	return nil
+}
+
+// nonNilChannels drops the null entries an upstream may have put into its
+// "channels" and "clients" arrays
+func nonNilChannels(in []*ChannelStats) []*ChannelStats {
+	out := in[:0]
+	for _, ch := range in {
+		if ch == nil {
+			continue
+		}
+		clients := ch.Clients[:0]
+		for _, cl := range ch.Clients {
+			if cl != nil {
+				clients = append(clients, cl)
+			}
+		}
+		ch.Clients = clients
+		out = append(out, ch)
+	}
+	return out
 }
